@@ -27,6 +27,7 @@
 -/
 import KB.Lemmas.Etcd
 import KB.Lemmas.EtcdRange
+import KB.Lemmas.EtcdShape
 namespace KB.C16
 open KB KB.Etcd Generated
 
@@ -93,13 +94,13 @@ theorem boundary_expectation_refused (c : Cfg) (s : BState) (k v : Bytes) (lease
     toU64_far (dealt := s.dealt) (by omega) (by omega) h63 (.inr (by omega))
   constructor
   · have hcl := (k8s_shapes_recognised k v lease (s.dealt + 1)).2.1
-    unfold shimTxn
+    rw [shimTxn_cases]
     rw [hcl]
     simp only
     rw [shimUpdate_fst, doUpdate_drift c s k v _ hfar]
   · intro hcur
     have hcl := (k8s_shapes_recognised k v lease (s.dealt + 1)).2.2.1 (by omega)
-    unfold shimTxn
+    rw [shimTxn_cases]
     rw [hcl]
     simp only
     rw [shimDelete_fst, doDelete_far c s k _ hfar]
@@ -117,10 +118,10 @@ theorem refused_unchanged (c : Cfg) (s : BState) (t : TxnReq) :
       shimTxn c s t = (.error .field, s)) := by
   constructor
   · intro h
-    unfold shimTxn
+    rw [shimTxn_cases]
     rw [h]
   · intro p h hf
-    unfold shimTxn
+    rw [shimTxn_cases]
     rw [h]
     exact shimCreate_flags c s p hf
 
@@ -128,7 +129,7 @@ theorem refused_unchanged (c : Cfg) (s : BState) (t : TxnReq) :
 turn" and nothing is executed — a deliberate emulation, excluded from `shim_sound`. -/
 theorem compact_canned (c : Cfg) (s : BState) (t : TxnReq) (h : classify t = .compact) :
     shimTxn c s t = (.ok compactResp, s) := by
-  unfold shimTxn
+  rw [shimTxn_cases]
   rw [h]
 
 /-- Whatever is executed (answered without an error, other than the compactor's canned answer) is
@@ -188,6 +189,314 @@ theorem unguarded_delete_missing_flag (c : Cfg) (s : BState) (m : Mvcc) (g : Ran
   have h := shim_udelete c s g d he hg hw
   rw [hmiss] at h
   exact ⟨h, sound_udelete c s m g d hk he hg hw ha⟩
+
+/-! ### the shaping laws: the response as a function of the BACKEND'S ANSWER
+
+`RPCServer.Txn` = recognise the shape, make the one backend call of the shape, shape its answer
+(`shapeTxn`). The laws below hold for EVERY answer the backend can give — also the ones that only a race
+produces (a delete / update / create that lost its compare-and-swap to a concurrent writer, a key that
+vanished between the read and the commit) and that no sequential script reaches; the `etcd` suite pushes
+the same scripted answers through the real `RPCServer.Txn` (`inject …` lines). -/
+
+/-- the answer to a transaction IS the shaping of the backend's answer to the call of its shape; when
+the shape has no call (put flags on a create, the compactor's, unsupported) no answer is looked at and
+the state is unchanged -/
+theorem txn_is_shaping_of_backend_answer (c : Cfg) (s : BState) (t : TxnReq) :
+    (∀ call, backendCall (classify t) = some call →
+      shimTxn c s t = (shapeTxn (classify t) (runCall c s call).1, (runCall c s call).2)) ∧
+    (backendCall (classify t) = none → ∀ a, shimTxn c s t = (shapeTxn (classify t) a, s)) := by
+  constructor
+  · intro call h
+    unfold shimTxn
+    rw [h]
+  · intro h a
+    unfold shimTxn
+    rw [h]
+    cases hcl : classify t with
+    | create p =>
+      rw [hcl] at h
+      by_cases hf : (p.ignoreLease || p.ignoreValue || p.prevKv) = true
+      · simp [shapeTxn, hf]
+      · simp [backendCall, hf] at h
+    | delete rev key g => rw [hcl] at h; simp [backendCall] at h
+    | update rev key val l => rw [hcl] at h; simp [backendCall] at h
+    | compact => rfl
+    | unsupported => rfl
+
+/-- an error of the backend call is passed through, in every shape that makes a call -/
+theorem backend_error_passed_through (sh : Shape) (call : BCall) (h : backendCall sh = some call) (e : Err) :
+    shapeTxn sh (.error e) = .error (.backend e) := by
+  cases sh with
+  | create p =>
+    by_cases hf : (p.ignoreLease || p.ignoreValue || p.prevKv) = true
+    · simp [backendCall, hf] at h
+    · simp [shapeTxn, shapeCreate, hf]
+  | delete rev key g => cases g <;> simp [shapeTxn, shapeDelete]
+  | update rev key val l => simp [shapeTxn, shapeUpdate]
+  | compact => simp [backendCall] at h
+  | unsupported => simp [backendCall] at h
+
+/-- THE SUCCESS FLAG OF THE UNGUARDED DELETE `Then(Get k, Delete k)`: whatever the backend answers
+(`Succeeded`, header, key-value), the response carries exactly that header and that key-value in its one
+range response, and `Succeeded = true` IFF the backend deleted the key or found it missing (no key-value).
+A delete the backend did not carry out although the key exists — it lost its compare-and-swap to a
+concurrent writer, the backend answers `Succeeded = false` with the writer's key-value — is NOT answered
+`Succeeded = true`. -/
+theorem unguarded_delete_success_flag (rev : Int) (k : Bytes) (succeeded : Bool) (hdr : Nat) (kv : Option KV) :
+    ∃ r, shapeTxn (.delete rev k false) (.resp succeeded hdr kv) = .ok r ∧
+      (r.ok = true ↔ (succeeded = true ∨ kv = none)) ∧
+      r.hdr = hdr ∧ r.resps = [.range hdr kv.toList 0 false] ∧ r.wrote = succeeded := by
+  cases succeeded <;> cases kv <;> simp [shapeTxn, shapeDelete, unguardedFlag]
+
+/-- ... in particular the lost race: `Succeeded = false`, the writer's current key-value, the header
+the backend gave (for every key, revision, key-value) -/
+theorem unguarded_delete_lost_race (rev : Int) (k : Bytes) (hdr : Nat) (kv : KV) :
+    shapeTxn (.delete rev k false) (.resp false hdr (some kv)) =
+      .ok { ok := false, hdr := hdr, resps := [.range hdr [kv] 0 false], wrote := false } := by
+  simp [shapeTxn, shapeDelete, unguardedFlag]
+
+/-- The failure branches of the other shapes: `Succeeded = false`, the header the backend gave, and the
+key-value the backend reports (update, guarded delete: in a range response — the current key-value, or
+none when the key is gone; create: a put response, no key-value); the success branches: `Succeeded = true`
+with the put response / the deleted key-value. -/
+theorem failure_branch_carries_backend_kv (rev : Int) (k v : Bytes) (lease : Int) (p : PutReq) (hdr : Nat)
+    (kv : Option KV) (hp : backendCall (.create p) ≠ none) :
+    shapeTxn (.update rev k v lease) (.resp false hdr kv) =
+      .ok { ok := false, hdr := hdr, resps := [.range hdr kv.toList 0 false], wrote := false } ∧
+    shapeTxn (.delete rev k true) (.resp false hdr kv) =
+      .ok { ok := false, hdr := hdr, resps := [.range hdr kv.toList 0 false], wrote := false } ∧
+    shapeTxn (.create p) (.resp false hdr kv) = .ok { ok := false, hdr := hdr, resps := [.put hdr], wrote := false } ∧
+    shapeTxn (.update rev k v lease) (.resp true hdr kv) = .ok { ok := true, hdr := hdr, resps := [.put hdr], wrote := true } ∧
+    shapeTxn (.delete rev k true) (.resp true hdr kv) =
+      .ok { ok := true, hdr := hdr, resps := [.range hdr kv.toList 0 false], wrote := true } ∧
+    shapeTxn (.create p) (.resp true hdr kv) = .ok { ok := true, hdr := hdr, resps := [.put hdr], wrote := true } := by
+  have hf : (p.ignoreLease || p.ignoreValue || p.prevKv) = false := by
+    cases h : (p.ignoreLease || p.ignoreValue || p.prevKv)
+    · rfl
+    · simp [backendCall, h] at hp
+  simp [shapeTxn, shapeUpdate, shapeDelete, shapeCreate, hf]
+
+/-- Header ≥ key-value revision in every failed answer, on every backend state and for every
+transaction: each range response of a `Succeeded = false` answer has the header of the answer, and no
+key-value in it is newer than that header (txn.go: `maxUint64(header, modRevision)`). -/
+theorem failure_header_ge_kv (c : Cfg) (s : BState) (t : TxnReq) (r : TxnResp)
+    (h : (shimTxn c s t).1 = .ok r) (hf : r.ok = false) :
+    ∀ hd kvs n mo, RespOp.range hd kvs n mo ∈ r.resps → hd = r.hdr ∧ ∀ kv ∈ kvs, kv.2.2 ≤ r.hdr := by
+  unfold shimTxn at h
+  cases hcl : classify t with
+  | create p =>
+    rw [hcl] at h
+    by_cases hfl : (p.ignoreLease || p.ignoreValue || p.prevKv) = true
+    · simp [backendCall, shapeTxn, hfl] at h
+    · simp only [backendCall, hfl, shapeTxn] at h
+      cases ha : (runCall c s (.create p.key p.val p.lease)).1 with
+      | error e => simp [ha, shapeCreate] at h
+      | resp ok hdr kv =>
+        simp [ha, shapeCreate] at h
+        subst h
+        intro hd kvs n mo hm
+        simp at hm
+  | delete rev key g =>
+    rw [hcl] at h
+    simp only [backendCall] at h
+    cases ha : (runCall c s (.delete key (toU64 rev))).1 with
+    | error e => cases g <;> simp [ha, shapeTxn, shapeDelete] at h
+    | resp ok hdr kv =>
+      have hkv := runCall_failed_kv c s (.delete key (toU64 rev)) hdr
+      rw [ha] at hkv
+      cases g with
+      | true =>
+        simp [ha, shapeTxn, shapeDelete] at h
+        subst h
+        simp only at hf
+        subst hf
+        intro hd kvs n mo hm
+        simp at hm
+        obtain ⟨rfl, rfl, _, _⟩ := hm
+        refine ⟨rfl, ?_⟩
+        intro x hx
+        cases kv with
+        | none => simp at hx
+        | some y => simp at hx; subst hx; exact hkv _ rfl
+      | false =>
+        cases ok with
+        | true =>
+          simp [ha, shapeTxn, shapeDelete, unguardedFlag] at h
+          subst h
+          simp at hf
+        | false =>
+          cases kv with
+          | none =>
+            simp [ha, shapeTxn, shapeDelete, unguardedFlag] at h
+            subst h
+            simp at hf
+          | some y =>
+            simp [ha, shapeTxn, shapeDelete, unguardedFlag] at h
+            subst h
+            intro hd kvs n mo hm
+            simp at hm
+            obtain ⟨rfl, rfl, _, _⟩ := hm
+            refine ⟨rfl, ?_⟩
+            intro x hx
+            simp at hx
+            subst hx
+            exact hkv _ rfl
+  | update rev key val l =>
+    rw [hcl] at h
+    simp only [backendCall] at h
+    cases ha : (runCall c s (.update key val (toU64 rev) l)).1 with
+    | error e => simp [ha, shapeTxn, shapeUpdate] at h
+    | resp ok hdr kv =>
+      have hkv := runCall_failed_kv c s (.update key val (toU64 rev) l) hdr
+      rw [ha] at hkv
+      cases ok with
+      | true =>
+        simp [ha, shapeTxn, shapeUpdate] at h
+        subst h
+        simp at hf
+      | false =>
+        simp [ha, shapeTxn, shapeUpdate] at h
+        subst h
+        intro hd kvs n mo hm
+        simp at hm
+        obtain ⟨rfl, rfl, _, _⟩ := hm
+        refine ⟨rfl, ?_⟩
+        intro x hx
+        cases kv with
+        | none => simp at hx
+        | some y => simp at hx; subst hx; exact hkv _ rfl
+  | compact =>
+    rw [hcl] at h
+    simp [backendCall, shapeTxn, compactResp] at h
+    subst h
+    intro hd kvs n mo hm
+    simp at hm
+    obtain ⟨rfl, rfl, _, _⟩ := hm
+    simp
+  | unsupported =>
+    rw [hcl] at h
+    simp [backendCall, shapeTxn] at h
+
+/-- THE LOST RACE AGREES WITH THE REFERENCE, linearised after the concurrent writer: let `m` be the etcd
+state in which the writer has come first (so the expectation `exp` of the transaction no longer matches:
+the key carries another revision, or is gone), and let the backend answer as it does then — `Succeeded =
+false` with the current key-value of `m`. The shaped answers to the guarded update, the guarded delete
+and the create are the ones etcd gives on `m` (same projection: flag, no write, the current key-value in
+the failure branch). -/
+theorem lost_race_matches_ref (m : Mvcc) (k v : Bytes) (lease : Int) (exp hdr : Nat) (hk : k ≠ [])
+    (hn : m.kvs.Pairwise (fun a b => a.key ≠ b.key))
+    (hlost : match m.get k with | none => exp ≠ 0 | some e => exp ≠ e.mod) :
+    (∃ r r' m', shapeTxn (classify (k8sUpdate k v exp lease)) (.resp false hdr ((m.get k).map KVFull.proj)) = .ok r ∧
+      refTxn m (k8sUpdate k v exp lease) = .ok (r', m') ∧
+      r.obs (k8sUpdate k v exp lease) = r'.obs (k8sUpdate k v exp lease)) ∧
+    (0 < exp → ∃ r r' m', shapeTxn (classify (k8sDelete k exp)) (.resp false hdr ((m.get k).map KVFull.proj)) = .ok r ∧
+      refTxn m (k8sDelete k exp) = .ok (r', m') ∧ r.obs (k8sDelete k exp) = r'.obs (k8sDelete k exp)) ∧
+    (∀ e, m.get k = some e → e.mod ≠ 0 → ∀ kv, ∃ r r' m',
+      shapeTxn (classify (k8sCreate k v lease)) (.resp false hdr kv) = .ok r ∧
+      refTxn m (k8sCreate k v lease) = .ok (r', m') ∧ r.obs (k8sCreate k v lease) = r'.obs (k8sCreate k v lease)) := by
+  have hrec := k8s_shapes_recognised k v lease exp
+  refine ⟨?_, ?_, ?_⟩
+  · have href := ref_update m { key := k, int := exp } { key := k, val := v, lease := lease } { key := k } exp
+      ⟨rfl, rfl, rfl, rfl, rfl⟩ ⟨hk, rfl, rfl, rfl⟩ (plainGet_of_key k) hn
+    dsimp only at href
+    cases hg : m.get k with
+    | none =>
+      rw [hg] at href hlost
+      simp only at href hlost
+      rw [if_neg (by simp; omega)] at href
+      obtain ⟨m', hm'⟩ := exists_of_map_fst href
+      refine ⟨{ ok := false, hdr := hdr, resps := [.range hdr [] 0 false], wrote := false }, _, m', ?_, hm', ?_⟩
+      · rw [hrec.2.1]
+        simp [shapeTxn, shapeUpdate]
+      · simp [TxnResp.obs, readsOf, RespOp.kvs?, k8sUpdate]
+    | some e =>
+      rw [hg] at href hlost
+      simp only at href hlost
+      rw [if_neg (by simp; omega)] at href
+      obtain ⟨m', hm'⟩ := exists_of_map_fst href
+      refine ⟨{ ok := false, hdr := hdr, resps := [.range hdr [e.proj] 0 false], wrote := false }, _, m', ?_, hm', ?_⟩
+      · rw [hrec.2.1]
+        simp [shapeTxn, shapeUpdate]
+      · simp [TxnResp.obs, readsOf, RespOp.kvs?, k8sUpdate]
+  · intro h0
+    have href := ref_gdelete m { key := k, int := exp } { key := k } { key := k } exp
+      ⟨rfl, rfl, rfl, rfl, rfl⟩ hk rfl (plainGet_of_key k) hn
+    cases hg : m.get k with
+    | none =>
+      rw [hg] at href
+      simp only at href
+      rw [if_neg (by omega)] at href
+      obtain ⟨m', hm'⟩ := exists_of_map_fst href
+      refine ⟨{ ok := false, hdr := hdr, resps := [.range hdr [] 0 false], wrote := false }, _, m', ?_, hm', ?_⟩
+      · rw [hrec.2.2.1 h0]
+        simp [shapeTxn, shapeDelete]
+      · simp [TxnResp.obs, readsOf, RespOp.kvs?, k8sDelete]
+    | some e =>
+      rw [hg] at href hlost
+      simp only at href hlost
+      rw [if_neg (by omega)] at href
+      obtain ⟨m', hm'⟩ := exists_of_map_fst href
+      refine ⟨{ ok := false, hdr := hdr, resps := [.range hdr [e.proj] 0 false], wrote := false }, _, m', ?_, hm', ?_⟩
+      · rw [hrec.2.2.1 h0]
+        simp [shapeTxn, shapeDelete]
+      · simp [TxnResp.obs, readsOf, RespOp.kvs?, k8sDelete]
+  · intro e hg he0 kv
+    have href := ref_create m { key := k } { key := k, val := v, lease := lease } ⟨rfl, rfl, rfl, rfl, rfl⟩
+      ⟨hk, rfl, rfl, rfl⟩ hn (by intro e' he'; rw [hg] at he'; cases he'; exact he0)
+    rw [hg] at href
+    simp only at href
+    obtain ⟨m', hm'⟩ := exists_of_map_fst href
+    refine ⟨{ ok := false, hdr := hdr, resps := [.put hdr], wrote := false }, _, m', ?_, hm', ?_⟩
+    · rw [hrec.1]
+      simp [shapeTxn, shapeCreate]
+    · simp [TxnResp.obs, readsOf, k8sCreate]
+
+/-- The unguarded delete on the reference: (1) the key is missing and the backend says so — `Succeeded =
+true`, nothing written, the empty read: etcd's answer; (2) the backend deleted the key at the next
+revision — etcd's answer; (3) THE LOST RACE, linearised after the concurrent writer (`m` holds the
+writer's key-value `e`, the backend did not delete and reports `e`): the shim answers what etcd answers
+to the delete GUARDED by the revision the backend had read (any `exp ≠ e.mod`) — failure branch, the
+current key-value, and etcd leaves `m` unchanged, as the backend did; (4) whereas etcd's own answer to the
+compare-less transaction on `m`, `Succeeded = true`, comes WITH the deletion (a write, the key gone): it
+is not the answer to give for a delete that was not carried out. -/
+theorem unguarded_delete_matches_ref (m : Mvcc) (k : Bytes) (hdr : Nat) (hk : k ≠ [])
+    (hn : m.kvs.Pairwise (fun a b => a.key ≠ b.key)) :
+    (m.get k = none → ∃ r r' m', shapeTxn (classify (k8sDeleteUnguarded k)) (.resp false hdr none) = .ok r ∧
+      refTxn m (k8sDeleteUnguarded k) = .ok (r', m') ∧ r.obs (k8sDeleteUnguarded k) = r'.obs (k8sDeleteUnguarded k)) ∧
+    (∀ e, m.get k = some e → ∃ r r' m',
+      shapeTxn (classify (k8sDeleteUnguarded k)) (.resp true (m.rev + 1) (some e.proj)) = .ok r ∧
+      refTxn m (k8sDeleteUnguarded k) = .ok (r', m') ∧ r.obs (k8sDeleteUnguarded k) = r'.obs (k8sDeleteUnguarded k)) ∧
+    (∀ e exp, m.get k = some e → 0 < exp → exp ≠ e.mod → ∃ r r',
+      shapeTxn (classify (k8sDeleteUnguarded k)) (.resp false hdr (some e.proj)) = .ok r ∧
+      r = { ok := false, hdr := hdr, resps := [.range hdr [e.proj] 0 false], wrote := false } ∧
+      refTxn m (k8sDelete k exp) = .ok (r', m) ∧ r.obs (k8sDelete k exp) = r'.obs (k8sDelete k exp)) ∧
+    (∀ e, m.get k = some e → ∃ r'' m'', refTxn m (k8sDeleteUnguarded k) = .ok (r'', m'') ∧
+      r''.ok = true ∧ r''.wrote = true ∧ r''.hdr = m.rev + 1 ∧ m''.get k = none) := by
+  have hrec := (k8s_shapes_recognised k [] 0 0).2.2.2
+  have href := ref_udelete m { key := k } { key := k } hk rfl (plainGet_of_key k) hn
+  refine ⟨?_, ?_, ?_, ?_⟩
+  · intro hg
+    rw [hg] at href
+    obtain ⟨m', hm'⟩ := exists_of_map_fst href
+    refine ⟨{ ok := true, hdr := hdr, resps := [.range hdr [] 0 false], wrote := false }, _, m', ?_, hm', ?_⟩
+    · rw [hrec]
+      simp [shapeTxn, shapeDelete, unguardedFlag]
+    · simp [TxnResp.obs, readsOf, RespOp.kvs?, k8sDeleteUnguarded]
+  · intro e hg
+    rw [hg] at href
+    obtain ⟨m', hm'⟩ := exists_of_map_fst href
+    refine ⟨{ ok := true, hdr := m.rev + 1, resps := [.range (m.rev + 1) [e.proj] 0 false], wrote := true }, _, m', ?_, hm', ?_⟩
+    · rw [hrec]
+      simp [shapeTxn, shapeDelete, unguardedFlag]
+    · simp [TxnResp.obs, readsOf, RespOp.kvs?, k8sDeleteUnguarded]
+  · intro e exp hg h0 hne
+    refine ⟨{ ok := false, hdr := hdr, resps := [.range hdr [e.proj] 0 false], wrote := false }, _, ?_, rfl,
+      ref_gdelete_stale_state m k e exp hk hn hg hne, ?_⟩
+    · rw [hrec]
+      simp [shapeTxn, shapeDelete, unguardedFlag]
+    · simp [TxnResp.obs, readsOf, RespOp.kvs?, k8sDelete]
+  · intro e hg
+    exact ref_udelete_deletes m k e hk hn hg
 
 /-! concrete states for the witnesses: memkv engine, three keys /r/a /r/b /r/c created at revisions
 1001 1002 1003 (the scripts `witness_cases` of kbcheck/props/c16.py replay exactly these) -/
@@ -280,6 +589,15 @@ EMPTY key is executed (etcd's request validation refuses it: "key is not provide
 theorem empty_key_executed :
     (shimTxn cfg0 s3 (k8sCreate [] v1 0)).1 = .ok { ok := true, hdr := 1004, resps := [.put 1004], wrote := true } ∧
     (refTxn m3 (k8sCreate [] v1 0)).map (fun x => x.1.ok) = .error .invalid := by decide
+
+/-- the lost race of the witness script `race_udelete_lost_to_update` (kbcheck/props/c16.py): /r/a was
+rewritten to v9 at 1003 by the concurrent writer, the unguarded delete was dealt 1004 and lost its
+compare-and-swap — the backend is called with revision 0 and its answer is presented as `Succeeded = false`
+with the writer's key-value -/
+theorem unguarded_delete_lost_race_witness :
+    backendCall (classify (k8sDeleteUnguarded kA)) = some (.delete kA 0) ∧
+    shapeTxn (classify (k8sDeleteUnguarded kA)) (.resp false 1004 (some (kA, v9, 1003))) =
+      .ok { ok := false, hdr := 1004, resps := [.range 1004 [(kA, v9, 1003)] 0 false], wrote := false } := by decide
 
 /-! ### reads -/
 
@@ -420,5 +738,19 @@ example : ∃ (m m' : Mvcc) (w : WEvent) (old : KVFull), m.get w.key = some old 
    { key := kA, val := v1, mod := 1001, create := 1001, version := 1 }, by decide, by decide, by decide, rfl⟩
 example : PlainRange { key := pfxLo, rangeEnd := pfxHi, limit := 1 } ∧ Alphabet pfxLo ∧ Alphabet pfxHi ∧
     cmp pfxLo pfxHi = .lt := ⟨⟨rfl, rfl, rfl, rfl, rfl, rfl⟩, by decide, by decide, by decide⟩
+
+example : kA ≠ [] ∧ m3.kvs.Pairwise (fun a b => a.key ≠ b.key) := by decide
+example : (match m3.get kA with | none => (1000 : Nat) ≠ 0 | some e => 1000 ≠ e.mod) := by
+  show (1000 : Nat) ≠ 1001
+  decide
+example : (match m3.get kD with | none => (1000 : Nat) ≠ 0 | some e => 1000 ≠ e.mod) := by
+  show (1000 : Nat) ≠ 0
+  decide
+example : ∃ e, m3.get kA = some e ∧ e.mod ≠ 0 ∧ (0 : Nat) < 1000 ∧ 1000 ≠ e.mod := ⟨_, rfl, by decide, by decide, by decide⟩
+example : m3.get kD = none := by decide
+example : ∃ r, (shimTxn cfg0 s0 (k8sDelete kA 5)).1 = .ok r ∧ r.ok = false :=
+  ⟨{ ok := false, hdr := 1001, resps := [.range 1001 [] 0 false], wrote := false }, by decide, rfl⟩
+example : backendCall (.create { key := kA, val := v1 }) ≠ none ∧
+    backendCall (classify (k8sUpdate kA v9 1001 0)) = some (.update kA v9 1001 0) := by decide
 
 end KB.C16
